@@ -12,6 +12,7 @@ func (rt *runtime) cmplEvaluateNodeStatement(node nodeStatement) Value {
 	// If the Interrupt channel is nil, then
 	// we avoid runtime.Gosched() overhead (if any)
 	// FIXME: Test this
+	rt.verifStep()
 	if rt.otto.Interrupt != nil {
 		goruntime.Gosched()
 		select {
@@ -256,6 +257,9 @@ resultBreak:
 		}
 
 		// this is to prevent for cycles with no body from running forever
+		if len(body) == 0 {
+			rt.verifStep()
+		}
 		if len(body) == 0 && rt.otto.Interrupt != nil {
 			goruntime.Gosched()
 			select {
